@@ -524,7 +524,14 @@ def repr_values(condition: Callable[..., bool], lambda_inspection: Optional[Cond
     reprs = None  # type: Optional[MutableMapping[str, Any]]
 
     if lambda_inspection is not None:
-        variable_lookup = collect_variable_lookup(condition=condition, resolved_kwargs=selected_kwargs)
+        # Only the arguments which the condition accepts are visible in the condition. The remaining arguments of
+        # the call must not shadow the closure and the global variables of the condition in the re-computation.
+        condition_parameters = inspect.signature(condition).parameters
+        condition_kwargs = {
+            key: value for key, value in selected_kwargs.items() if key in condition_parameters
+        }
+
+        variable_lookup = collect_variable_lookup(condition=condition, resolved_kwargs=condition_kwargs)
 
         recompute_visitor = icontract._recompute.Visitor(variable_lookup=variable_lookup)
 
